@@ -8,6 +8,7 @@ Configuration clauses: an assignment applies to exactly the named pair (same cla
 placed), one pair for two roles is rejected.
 """
 import os
+import zlib
 import shutil
 
 from .. import drive
@@ -108,7 +109,7 @@ def run_case(rec, case):
                           f"class {cls[:30]!r}", full)
     # (ii) MPI record
     if True:
-        mp = drive.fresh(wd, ".hex")
+        mp = drive.fresh_out(wd, ".hex")
         from suit_generator.cmd_mpi import MpiGenerator
         try:
             MpiGenerator.generate(mp, vendor, cls, 0x1000, 64, False, False, None)
@@ -176,7 +177,9 @@ def run_case(rec, case):
     if scenario == "other-vendor" and any(want_cid_env == uuid5(uuid5(DNS, L.DEFAULT_VENDOR), c)
                                           for c in L.DEFAULT_CLASSES[soc].values()):
         return
-    kc = drive.fresh(wd, ".config")
+    reuse = zlib.crc32(f"kc/{case['n']}".encode()) % 2 == 0
+    kc = os.path.join(wd, "regenerated.config") if reuse else drive.fresh(wd, ".config")
+    rec.count("kconfig-path:" + ("regenerated-in-place" if reuse else "fresh"))
     with open(kc, "w", encoding="utf-8") as fh:
         fh.write("\n".join(lines) + "\n")
     indir, outdir = os.path.join(wd, f"i{case['n']}"), os.path.join(wd, f"o{case['n']}")
